@@ -280,6 +280,8 @@ pub fn e1_spec(id: &str, tier: &str) -> Option<Spec> {
                 }
                 v.push(progs::head_flag_cycle(ql::ex::Kind::Fx));
                 v.push(progs::head_flag_cycle(ql::ex::Kind::Fxj));
+                v.push(progs::head_flag_cycle_hi(ql::ex::Kind::Fx));
+                v.push(progs::head_flag_cycle_hi(ql::ex::Kind::Fxj));
                 v
             },
             depth: if quick { 2 } else { 3 },
